@@ -391,6 +391,31 @@ func c01SeqCase(c *Ctx, i int, r *rand.Rand) {
 		}
 		total := 3*ref.W + r.IntN(ref.W+1)
 		seq := make([]string, 0, total)
+		// a quarter of the pools receive administration calls that are *rejected* (and therefore change nothing) in the
+		// middle of the measured stretch: the pool "is not being changed", so every window must stay exact across them
+		rejecting := i%4 == 2
+		rejectedOK := true
+		maybeReject := func() {
+			if !rejecting || !rejectedOK || r.IntN(7) != 0 {
+				return
+			}
+			var err error
+			switch r.IntN(4) {
+			case 0:
+				err = rr.UpsertServer(urls[r.IntN(len(urls))], roundrobin.Weight(1+r.IntN(9)), roundrobin.Weight(-1))
+			case 1:
+				err = rr.UpsertServer(mustURL("http://never-added.test:999/p"), roundrobin.Weight(-1))
+			case 2:
+				err = rr.RemoveServer(mustURL("http://never-added.test:999/p"))
+			default:
+				err = rr.UpsertServer(nil)
+			}
+			if err == nil {
+				rejectedOK = false // the call was accepted: the pool changed (C02's concern); this stretch is not decided
+				return
+			}
+			c.Count("rejected_calls_inside_measured_stretch", 1)
+		}
 		if viaHTTP {
 			// with sticky sessions: requests that carry a valid affinity cookie are not selections; interleaved with the
 			// cookie-less ones they must not disturb the rotation
@@ -419,6 +444,7 @@ func c01SeqCase(c *Ctx, i int, r *rand.Rand) {
 						mu.Unlock()
 					}
 				}
+				maybeReject()
 				front.ServeHTTP(httptest.NewRecorder(), httptest.NewRequest("GET", "http://client.test/x", nil))
 			}
 			seq = seen
@@ -428,6 +454,7 @@ func c01SeqCase(c *Ctx, i int, r *rand.Rand) {
 			}
 		} else {
 			for k := 0; k < total; k++ {
+				maybeReject()
 				u, err := rr.NextServer()
 				if err != nil {
 					c.Violation("next/error", "NextServer failed on a pool with a positive weight: "+err.Error(), map[string]any{"weights": ws})
@@ -438,6 +465,13 @@ func c01SeqCase(c *Ctx, i int, r *rand.Rand) {
 		}
 		c.Count("selections_checked", int64(total))
 		c.Count("windows_checked", int64(total-ref.W+1))
+		if !rejectedOK {
+			c.Count("stretches_undecided_a_rejected_call_was_accepted", 1)
+			return
+		}
+		if rejecting {
+			hist = append(hist, "rejected-calls-inside-the-stretch")
+		}
 		if off, msg := slidingExact(seq, ref); off >= 0 {
 			c.Violation("seq/window", sfmt("weights %v (W=%d) after history %v: %s", ws, ref.W, hist, msg), map[string]any{"weights": ws, "history": hist, "via_http": viaHTTP, "first_selections": seq[:min(len(seq), 40)]})
 			return
